@@ -56,6 +56,9 @@ func (d Decryptor) Decrypt(ct *Ciphertext, pt *Plaintext) {
 
 	pt.Resize(0, level)
 
+	// pt.Value is a second view on pt.Element.Value[0]: keeps both at the same level
+	pt.Value = pt.Element.Value[0]
+
 	*pt.MetaData = *ct.MetaData
 
 	if ct.IsNTT {
